@@ -115,6 +115,46 @@ def _to_nnx(nn, nnx, bridge, jnp, jax, fails):
     if not _close(after.get('batch_stats'), dict(upd)['batch_stats']) or not _close(after.get('params'), vs['params']):
       fails.append(dict(inputs=inp, observed=f"after the call the wrapper holds params {jax.tree_util.tree_map(np.shape, after.get('params'))} / batch_stats {jax.tree_util.tree_map(np.shape, after.get('batch_stats'))}; expected unchanged params {jax.tree_util.tree_map(np.shape, vs['params'])} and the updated batch_stats"[:400], violated='tonnx-mutable-propagated'))
       return cases
+  # a lazy_init that raises part-way (second child rejects its input) leaves no wrapper in initializing mode
+  class Head(nn.Module):
+    @nn.compact
+    def __call__(self, z):
+      return z @ self.param('w', nn.initializers.lecun_normal(), (4, 2))
+
+  class Pair(nnx.Module):
+    def __init__(self, rngs):
+      self.enc = bridge.ToNNX(Deep(), rngs=rngs)
+      self.head = bridge.ToNNX(Head(), rngs=rngs)
+
+    def __call__(self, x, z):
+      return self.enc(x).sum() + self.head(z).sum()
+  cases += 1
+  inp = dict(direction='ToNNX', module='nnx parent with two wrapped linen children', sequence='lazy_init raises in the second child; second child re-initialised alone; calls')
+  pair = Pair(nnx.Rngs(0))
+  try:
+    bridge.lazy_init(pair, x, jnp.ones((3, 5)))      # head rejects width 5
+    raised = False
+  except Exception:  # noqa
+    raised = True
+  try:
+    bridge.lazy_init(pair.head, jnp.ones((3, 4)))
+    before = held(pair.enc)
+    want = deep.apply(before, x, False, mutable=False)
+    got1 = pair.enc(x, False)
+    mid = held(pair.enc)
+    got2 = pair.enc(x, False)
+    want_m, upd = deep.apply(mid, x, mutable=['batch_stats'])
+    got_m = pair.enc(x, mutable=['batch_stats'])
+    if not raised:
+      fails.append(dict(inputs=inp, observed='the failing lazy_init did not raise', violated='tonnx-output-equal'))
+    elif not _close(want, got1) or not _close(got1, got2) or not _close(before, mid):
+      fails.append(dict(inputs=inp, observed='after the failed lazy_init the first wrapper no longer returns linen apply on the variables it holds (it re-initialises on every call / its held variables change on a non-mutable call)', violated='tonnx-output-equal'))
+    elif not _close(want_m, got_m) or not _close(held(pair.enc).get('batch_stats'), dict(upd)['batch_stats']):
+      fails.append(dict(inputs=inp, observed='after the failed lazy_init a mutable call does not propagate the updated collection', violated='tonnx-mutable-propagated'))
+  except Exception as e:  # noqa
+    fails.append(dict(inputs=inp, observed=f'raised {e!r}'[:300], violated='tonnx-output-equal'))
+  if fails:
+    return cases
   # sharding metadata preserved
   cases += 1
   kernel = [v for p, v in flat.items() if p[-1] == 'kernel'][0]
@@ -245,6 +285,41 @@ def _to_linen(nn, nnx, bridge, jnp, jax, fails):
     if not _close(ref(x[None]), lin.apply(vs, x[None])):
       fails.append(dict(inputs=dict(direction='ToLinen', module='nnx.Linear', call=step), observed='ToLinen(nnx.Linear) differs from nnx.Linear with the same parameters', violated='tolinen-output-equal'))
       return cases
+  # sharding metadata NNX -> Linen: the linen tooling derives the sharding the nnx tooling derives (mesh names, logical names
+  # resolved by per-variable sharding_rules, logical names resolved by the global logical_axis_rules context)
+  class Sharded(nnx.Module):
+    def __init__(self, *, rngs):
+      init, zeros = nnx.initializers.lecun_normal(), nnx.initializers.zeros_init()
+      self.plain = nnx.Param(nnx.with_partitioning(init, ('data', 'model'))(rngs.params(), (4, 3)))
+      self.logical = nnx.Param(nnx.with_partitioning(init, ('embed', 'mlp'), sharding_rules=(('embed', None), ('mlp', 'model')))(rngs.params(), (4, 3)))
+      self.ctx = nnx.Param(nnx.with_partitioning(init, ('batch', 'hidden'))(rngs.params(), (4, 3)))
+      self.bias = nnx.Param(jnp.full((3,), 0.25))
+      self.stat = nnx.BatchStat(nnx.with_partitioning(zeros, ('mlp',), sharding_rules=(('mlp', 'model'),))(rngs.params(), (3,)))
+
+    def __call__(self, x):
+      return x @ (self.plain + self.logical + self.ctx) + self.bias + self.stat
+  sm = bridge.to_linen(Sharded)
+  sv = sm.init(jax.random.key(0), jnp.ones((2, 4)))
+  ref_s = Sharded(rngs=nnx.Rngs(0))
+
+  def nnx_view():
+    out = {}
+    for path, vs_ in nnx.to_flat_state(nnx.get_partition_spec(nnx.state(ref_s))):
+      out[(nnx.variable_name_from_type(vs_.type), *path)] = vs_.value
+    return out
+
+  def linen_view():
+    specs = nn.get_partition_spec({c: v for c, v in sv.items() if c != 'nnx'})
+    return {(c, n): sp for c, tree in specs.items() for n, sp in tree.items()}
+  import contextlib
+  for tag, ctx in (('no global rules', contextlib.nullcontext()), ('global logical_axis_rules', nn.logical_axis_rules((('batch', 'data'), ('hidden', 'model'))))):
+    cases += 1
+    with ctx:
+      want, got = nnx_view(), linen_view()
+    if want != got:
+      diff = {k: (got.get(k), want.get(k)) for k in set(want) | set(got) if got.get(k) != want.get(k)}
+      fails.append(dict(inputs=dict(direction='ToLinen', check='sharding', rules=tag), observed=f'linen get_partition_spec vs nnx get_partition_spec (linen, nnx): {diff}'[:400], violated='metadata-preserved'))
+      return cases
   return cases
 
 
@@ -262,7 +337,7 @@ def run(tier, seed):
       import traceback
       return dict(name=NAME, cases=cases, distinct=cases, failures=[], error=f'{part.__name__}: ' + traceback.format_exc()[-1500:])
   return dict(name=NAME, cases=cases, distinct=cases,
-              bound='ToNNX(Dense+BatchNorm+counter): 3 calls; ToNNX(BatchNorm two levels deep): 3 calls; ToLinen(NoisyScale with Param/Calls/RNG stream): 4 calls x mutable {[Calls,RngCount], True}; ToLinen(Param+LoRAParam+BatchStat+Ema subclass): layout + 3 calls; ToLinen(Variables with per-instance hooks): 3 calls; ToLinen(nnx.Linear): 2 calls; sharding metadata both ways',
+              bound='ToNNX(Dense+BatchNorm+counter): 3 calls; ToNNX(BatchNorm two levels deep): 3 calls; ToLinen(NoisyScale with Param/Calls/RNG stream): 4 calls x mutable {[Calls,RngCount], True}; ToLinen(Param+LoRAParam+BatchStat+Ema subclass): layout + 3 calls; ToLinen(Variables with per-instance hooks): 3 calls; ToLinen(nnx.Linear): 2 calls; sharding metadata both ways (mesh names, per-variable sharding_rules, global logical_axis_rules); a lazy_init that raises in the second of two wrapped children',
               failures=fails[:4], error=None)
 
 
